@@ -1089,11 +1089,19 @@ func c03Start(g *c03Cfg, w *c03World) *c03Env {
 		e.ba = local.NewFlatBlobAccess(klm, lbm, digest.KeyWithoutInstance, &e.lock, "verifc03", prov)
 	}
 
-	// what was read, what was restored, and the list's own view of it
+	// what was read, what was restored, the list's own view of it, and how
+	// many of the restored blocks the old/current/new map treats as "old"
+	// (Get reports needsRefresh exactly for those)
 	po, pblocks := bl.GetPersistentState()
+	nold := 0
+	for i := 0; i < initialBlockCount; i++ {
+		if _, needsRefresh := lbm.Get(local.Location{BlockIndex: i}); needsRefresh {
+			nold++
+		}
+	}
 	e.hist = append(e.hist, L(A(0), AI(initialBlockCount),
 		L(AU(uint64(ps.OldestEpochId)), e.encBlocks(ps.Blocks)), L(e.found...),
-		L(AU(uint64(po)), e.encBlocks(pblocks))))
+		L(AU(uint64(po)), e.encBlocks(pblocks)), AI(nold)))
 
 	ctx, cancel := context.WithCancel(context.Background())
 	e.cancel = cancel
